@@ -42,8 +42,8 @@ def catalogue(cfg, iso, sh, rng):
         yield 'add_eltorito', 'duplicate-catalog-name', LATE, lambda: iso.add_eltorito(f, bootcatfile=f, **({'rr_bootcatname': 'bcat'} if cfg.rr else {}))
     if dirs['iso']:
         d = dirs['iso'][0]
-        # with Rock Ridge the record constructor bumps the parent's link counts before the duplicate test can refuse
-        yield 'add_directory', 'duplicate:iso', (LATE if cfg.rr else EARLY), lambda: iso.add_directory(iso_path=d, **rr)
+        # (with Rock Ridge the record constructor bumps the parent's link counts; fix 32b487c refuses the duplicate before it)
+        yield 'add_directory', 'duplicate:iso', EARLY, lambda: iso.add_directory(iso_path=d, **rr)
         yield 'rm_file', 'is-a-directory', EARLY, lambda: iso.rm_file(iso_path=d)
         yield 'rm_hard_link', 'is-a-directory', EARLY, lambda: iso.rm_hard_link(iso_path=d)
         ne = [x for x in dirs['iso'] if any(q.startswith(x + '/') for q in files['iso'] + dirs['iso'])]
